@@ -92,9 +92,13 @@ def step (s : DState) (toks : List String) : DState × String :=
     | some raw => compileRaw s raw
   | "envcfg" :: rest =>
     match rawOfTokens (rest.take 24), rest.drop 24 with
-    | some flags, [uid, resolv, dual, addrs, _via] =>
+    | some flags, [uid, resolv, dual, addrs, via] =>
+      let viaL := decList via
       let e : Environment := {
-        ownerGroupsInclude := optEnv (rest.getD 9 "~"), ownerGroupsExclude := optEnv (rest.getD 10 "~"),
+        addrError := viaL.contains "addrerr=1",
+        forceBinary := ((viaL.find? (·.startsWith "binary=")).map (fun s => (s.drop 7).toString)).getD "",
+        ownerGroupsInclude := if viaL.contains "empty:ISTIO_OUTBOUND_OWNER_GROUPS" then some "" else optEnv (rest.getD 9 "~"),
+        ownerGroupsExclude := if viaL.contains "empty:ISTIO_OUTBOUND_OWNER_GROUPS_EXCLUDE" then some "" else optEnv (rest.getD 10 "~"),
         loCidr := optEnv (rest.getD 23 "~"), envoyUID := dec uid, dualStack := tokBool dual,
         localAddrs := decList addrs, resolvConf := decList resolv }
       match flags.fill e with
